@@ -14,6 +14,7 @@ def runner(fd):
 
 def run(mutants, repo='/repo', jobs=8, verbose=False):
     extract.ensure_driver()
+    os.environ.setdefault('PIE_EXTRACT_JOBS', '3')
     base = tempfile.mkdtemp(prefix='pie-selftest-')
     results = {}
     try:
